@@ -207,7 +207,7 @@ def check_grid(connection):
     return findings, stats
 
 
-def walk_curve(connection, kind, reference_level=None, rng=None):
+def walk_curve(connection, kind, reference_level=None, rng=None, cache=None):
     """kind: 'recession' or 'rise'.  Returns (findings, stats).
     reference_level: integer level k given as -r k*step, or None."""
     findings = []
@@ -253,7 +253,12 @@ def walk_curve(connection, kind, reference_level=None, rng=None):
                          {'only_rows': sorted(set(byint) - set(stored))[:5], 'only_intervals': sorted(set(stored) - set(byint))[:5]}))
 
     # ---- own series of every classified interval of that kind
-    _, series = own_series(connection, kind)
+    if cache is not None and ('series', kind, gs) in cache:
+        series = cache[('series', kind, gs)]
+    else:
+        _, series = own_series(connection, kind)
+        if cache is not None:
+            cache[('series', kind, gs)] = series
     if kind == 'rise':
         segview = {r[0]: r[1:] for r in connection.execute(
             'SELECT interval_start_epoch, rain_depth_offset_mm, rain_total_depth_mm, initial_zeta_mm, final_zeta_mm FROM rising_curve_line_segment')}
@@ -270,7 +275,12 @@ def walk_curve(connection, kind, reference_level=None, rng=None):
                     findings.append(('C13', 'rising_curve_line_segment-differs', {'view': sv, 'expected': exp}))
                 else:
                     hit('line-segment-view-rows-checked')
-    own = {s: own_crossings(x, y, gs) for s, (x, y) in series.items()}
+    if cache is not None and ('own', kind, gs) in cache:
+        own = cache[('own', kind, gs)]
+    else:
+        own = {s: own_crossings(x, y, gs) for s, (x, y) in series.items()}
+        if cache is not None:
+            cache[('own', kind, gs)] = own
 
     # ---- C13 crossing values, levels in grid
     n_amb = 0
